@@ -210,8 +210,11 @@ func c07inventory(c *Ctx) {
 				}
 				em := elemOf(mu.Key, "Minor")
 				var et ssa.Value
-				if lk, ok := firstSource(mu.Map).(*ssa.Lookup); ok {
-					et = elemOf(lk.Index, "Type")
+				// the inner map: looked up under the element's type (or, when it was missing, made and stored there)
+				for _, ms := range cellSources(mu.Map) {
+					if lk, ok := ms.(*ssa.Lookup); ok && et == nil {
+						et = elemOf(lk.Index, "Type")
+					}
 				}
 				sameElem := em != nil && et != nil && sameSource(em, et)
 				// the value: empty under !Health, Resources of the element under Health
